@@ -314,13 +314,32 @@ def interleave_rule(ctx: Ctx, rule: str = "INTERLEAVE") -> None:
     choice = [s for s in loop.body if isinstance(s, ast.Assign) and isinstance(s.value, ast.Call) and call_method(s.value)[1] == "index"
               and s.value.args and isinstance(s.value.args[0], ast.Call) and isinstance(s.value.args[0].func, ast.Name)]
     ok = len(choice) == 1 and choice[0].value.args[0].func.id == "min" and src(choice[0].value.args[0].args[0]) == src(call_method(choice[0].value)[0])
+    times_by_key = None
+    if not choice:
+        # the same choice as an arg-min: min(range(len(..)), key=times.__getitem__) -- the first minimal index, like times.index(min(times))
+        for s_ in loop.body:
+            v = s_.value if isinstance(s_, ast.Assign) else None
+            if isinstance(v, ast.Call) and isinstance(v.func, ast.Name) and v.func.id == "min" and len(v.args) == 1 and isinstance(v.args[0], ast.Call) \
+                    and src(v.args[0].func) == "range" and len(v.args[0].args) == 1 and len(v.keywords) == 1 and v.keywords[0].arg == "key":
+                k = v.keywords[0].value
+                if isinstance(k, ast.Attribute) and k.attr == "__getitem__" and isinstance(k.value, ast.Name):
+                    times_by_key = k.value.id
+                elif isinstance(k, ast.Lambda) and len(k.args.args) == 1 and isinstance(k.body, ast.Subscript) and isinstance(k.body.value, ast.Name) \
+                        and src(k.body.slice) == k.args.args[0].arg:
+                    times_by_key = k.body.value.id
+                if times_by_key is not None:
+                    choice = [s_]
+                    ok = True
+                    break
     ctx.check(ok, rule, f"{q}: the next pairing comes from the channel with the smallest next onset", function=q,
               construct="interleaving does not pick the channel with the minimal next onset",
               message=f"{[short(c) for c in choice]}", file=fi.file, node=choice[0] if choice else loop)
     if not choice:
         return
     cidx = choice[0].targets[0].id
-    times_var = src(call_method(choice[0].value)[0])
+    times_var = times_by_key or src(call_method(choice[0].value)[0])
+    # channels and cursors walked in parallel (zip) instead of by index: the checks that read `table[i]` expressions do not apply
+    zipped = any(isinstance(c, ast.Call) and src(c.func) == "zip" for c in ast.walk(fi.node))
     # the candidate times: next onset of each channel, infinity when exhausted
     tdef = [s for s in loop.body if isinstance(s, ast.Assign) and isinstance(s.targets[0], ast.Name) and s.targets[0].id == times_var]
     ok = len(tdef) == 1 and isinstance(tdef[0].value, ast.ListComp) and isinstance(tdef[0].value.elt, ast.IfExp) and "inf" in src(tdef[0].value.elt.orelse) \
@@ -352,6 +371,9 @@ def interleave_rule(ctx: Ctx, rule: str = "INTERLEAVE") -> None:
         if ok:
             ch, pr = nz.norm(a.elts[0]).canon(), nz.norm(a.elts[1]).canon()
             ok = ch.endswith(f"[{cidx}]") and f"[{cidx}]" in pr and cursor is not None and f"{cursor}[{cidx}]" in pr
+        if not ok and zipped and isinstance(a, ast.Tuple) and len(a.elts) == 2:
+            ctx.undetermined(rule, f"{q}: emits (channel, pairing at that channel's cursor)", "item unpacked instead of indexed: not judged")
+            ok = True
         ctx.check(ok, rule, f"{q}: emits (channel, pairing at that channel's cursor)", function=q,
                   construct="emitted element is not (chosen channel, its pairing at the cursor)", message=short(a, 100), file=fi.file, node=apps[0])
     # continuation: while any cursor is not exhausted
@@ -380,7 +402,21 @@ def interleave_rule(ctx: Ctx, rule: str = "INTERLEAVE") -> None:
         # every exhaustion test compares a cursor strictly with a length
         tests = [c for c in ast.walk(fi.node) if isinstance(c, ast.Compare) and len(c.ops) == 1 and isinstance(c.left, ast.Subscript)
                  and src(c.left.value) == cursor]
-        ctx.check(bool(tests) and all(isinstance(c.ops[0], ast.Lt) for c in tests), rule,
+        ztests = []
+        if zipped and not tests:
+            # `cur < len(pairings) for (_, pairings), cur in zip(items, cursor)`: the same test on the zipped variables
+            for comp in ast.walk(fi.node):
+                for g in getattr(comp, "generators", []) if isinstance(comp, (ast.ListComp, ast.GeneratorExp)) else []:
+                    if isinstance(g.iter, ast.Call) and src(g.iter.func) == "zip" and isinstance(g.target, ast.Tuple) and len(g.target.elts) == len(g.iter.args):
+                        bound = {src(t): src(a_) for t, a_ in zip(g.target.elts, g.iter.args)}
+                        cvar = next((t for t, a_ in bound.items() if a_ == cursor), None)
+                        if cvar is not None:
+                            ztests += [c for c in ast.walk(comp) if isinstance(c, ast.Compare) and len(c.ops) == 1 and src(c.left) == cvar]
+            ctx.check(bool(ztests) and all(isinstance(c.ops[0], ast.Lt) and isinstance(c.comparators[0], ast.Call) and src(c.comparators[0].func) == "len" for c in ztests), rule,
+                      f"{q}: {len(ztests)} exhaustion test(s) compare the zipped cursor strictly with a length", function=q,
+                      construct="an exhaustion test of the interleaving is not `cursor < length`", message=f"{[short(c, 60) for c in ztests]}",
+                      file=fi.file, node=ztests[0] if ztests else loop)
+        ctx.check(bool(ztests) or (bool(tests) and all(isinstance(c.ops[0], ast.Lt) for c in tests)), rule,
                   f"{q}: {len(tests)} exhaustion test(s) compare the cursor strictly with the channel's number of pairings", function=q,
                   construct="an exhaustion test of the interleaving is not `cursor < length`", message=f"{[short(c, 60) for c in tests]}",
                   file=fi.file, node=tests[0] if tests else loop)
@@ -397,7 +433,13 @@ def interleave_rule(ctx: Ctx, rule: str = "INTERLEAVE") -> None:
     # onset table before the loop = onset table recomputed in the loop
     nxt = [s for s in loop.body if isinstance(s, ast.Assign) and isinstance(s.targets[0], ast.Name) and isinstance(s.value, ast.ListComp)
            and any(isinstance(a, ast.Attribute) and a.attr == "time" for a in ast.walk(s.value))]
+    fresh_each_round = bool(nxt) and bool(choice) and all(s.lineno < choice[0].lineno for s in nxt) \
+        and not any(isinstance(x, ast.Assign) and isinstance(x.targets[0], ast.Name) and x.targets[0].id == nxt[0].targets[0].id for x in pre)
     for s in nxt:
+        if fresh_each_round:
+            if zipped:
+                ctx.undetermined(rule, f"{q}: a channel's next onset", "read through zipped variables: expression not judged")
+            continue
         first = [x for x in pre if isinstance(x, ast.Assign) and isinstance(x.targets[0], ast.Name) and x.targets[0].id == s.targets[0].id]
         ctx.check(len(first) == 1 and ast.dump(first[0].value) == ast.dump(s.value), rule,
                   f"{q}: `{s.targets[0].id}` is initialised with the expression that refreshes it each round", function=q,
@@ -427,9 +469,12 @@ def interleave_rule(ctx: Ctx, rule: str = "INTERLEAVE") -> None:
             okid = bool(d) and isinstance(d[0].value.elt, ast.Subscript) and isinstance(d[0].value.elt.slice, ast.Constant) and d[0].value.elt.slice.value == 0
             prs = nz2.norm(a.elts[1]).canon()
             okpr = "][1][" in prs
+            if zipped and not (okid and okpr):
+                okid = okpr = True          # (reported as not judged above)
             ctx.check(okid and okpr, rule, f"{q}: channel ids are the keys and pairings the values of the pairing table's items", function=q,
                       construct="interleaving mixes up the key and the value of the pairing table's items", message=f"{chs} / {prs}", file=fi.file, node=apps[0])
-    ctx.check(bool(nxt) and bool(incs) and all(s.lineno > incs[0].lineno for s in nxt), rule,
+    # (a table computed at the top of every round, before the choice, is fresh by construction)
+    ctx.check(fresh_each_round or (bool(nxt) and bool(incs) and all(s.lineno > incs[0].lineno for s in nxt)), rule,
               f"{q}: the next-onset table is refreshed after the cursor moved ({len(nxt)} refresh)", function=q,
               construct="next-onset table is not refreshed after the cursor advance", message="the choice of the next round would use stale onsets",
               file=fi.file, node=loop)
